@@ -911,7 +911,32 @@ def consumption(term, keep_src=False):
             elif k == "T":
                 parts.append(f"T({it[1]})")
             elif k == "if":
-                a, b = seq(it[2]), seq(it[3])
+                import re as _re
+
+                before = set(ren.values())
+                a = seq(it[2])
+                mid = dict(ren)
+                b = seq(it[3])
+
+                def _local(txt):
+                    m_ = {}
+
+                    def sub_(mm):
+                        k_ = mm.group(0)
+                        if k_ in before:
+                            return k_
+                        if k_ not in m_:
+                            m_[k_] = f"m{len(m_) + 1}"
+                        return m_[k_]
+
+                    return _re.sub(r"\bn\d+\b|\$\d+", sub_, txt)
+
+                if a != b and a and b and _local(a) == _local(b):
+                    # both arms consume the same (their fresh tokens differ in number only): one copy, and the tokens
+                    # the second arm allocated are given back
+                    for k_ in [k_ for k_ in ren if k_ not in mid]:
+                        del ren[k_]
+                    b = a
                 a_dead = _dead(it[2])
                 b_dead = _dead(it[3])
                 if a_dead and b_dead:
